@@ -649,6 +649,204 @@ func TestBoundaries(t *testing.T) {
 	}
 }
 
+// TestLargestMessage: the largest payload a message header can announce (2^24-1 bytes), and its neighbour.
+func TestLargestMessage(t *testing.T) {
+	rec := ev.New(prop, "largest-message", "deterministic: one message of 2^24-2 and one of 2^24-1 payload bytes (the 24-bit length field's maximum), under the default chunk size and after Set Chunk Size 65536 / 2^24; every case is non-trivial")
+	rec.Exhaustive()
+	for _, ln := range []int{1<<24 - 2, 1<<24 - 1} {
+		for _, cs := range []uint32{128, 65536, 1 << 24} {
+			c := Case{}
+			if cs != 128 {
+				c.Steps = append(c.Steps, Step{Dir: 0, Kind: "scs", ChunkSize: cs})
+			}
+			c.Steps = append(c.Steps, Step{Dir: 0, Kind: "msg", Type: 9, Sid: 1, Ts: 7, Len: ln, Fill: uint64(ln)})
+			err := ev.Try(func() error { _, e := runCase(c); return e })
+			rec.Case(true, ev.Hash(c), nil, func() any { return c })
+			if err != nil {
+				p := ev.Fail(prop, "largest-message", c, err)
+				t.Fatalf("%v (replay %s)", err, p)
+			}
+		}
+	}
+}
+
+// ---------------------------------------------------------------- full duplex
+
+// DCase: one endpoint reads the messages In while it writes the messages Out; the two directions of a session are
+// independent byte streams, so what is read must not depend on when this endpoint writes, and the reverse.
+type DCase struct {
+	In  []Step `json:"in"`
+	Out []DOut `json:"out"`
+}
+
+// DOut: the endpoint writes Step while its reader waits for byte K (0 = the basic header's first byte) of inbound message Msg.
+type DOut struct {
+	Step Step `json:"step"`
+	Msg  int  `json:"msg"`
+	K    int  `json:"k"`
+}
+
+type gated struct {
+	want chan struct{}
+	data chan byte
+	out  bytes.Buffer
+}
+
+func (g *gated) Read(p []byte) (int, error) {
+	if len(p) == 0 {
+		return 0, nil
+	}
+	g.want <- struct{}{}
+	b, ok := <-g.data
+	if !ok {
+		return 0, io.EOF
+	}
+	p[0] = b
+	return 1, nil
+}
+func (g *gated) Write(p []byte) (int, error) { return g.out.Write(p) }
+
+func genDCase(t *rapid.T) DCase {
+	var c DCase
+	step := func(label string) Step {
+		return Step{Kind: "msg", Type: rapid.SampledFrom([]uint8{8, 9, 15, 17, 18, 20, 22}).Draw(t, label+"type"), Sid: genSid(t), Ts: genTs(t), Len: rapid.IntRange(1, 300).Draw(t, label+"len"), Fill: rapid.Uint64().Draw(t, label+"fill")}
+	}
+	for n := rapid.IntRange(1, 4).Draw(t, "nin"); len(c.In) < n; {
+		c.In = append(c.In, step("in"))
+	}
+	for n := rapid.IntRange(1, 5).Draw(t, "nout"); len(c.Out) < n; {
+		c.Out = append(c.Out, DOut{Step: step("out"), Msg: rapid.IntRange(0, len(c.In)-1).Draw(t, "at"), K: rapid.IntRange(0, 18).Draw(t, "k")})
+	}
+	return c
+}
+
+func plainMsg(s Step) *rtmp.Message {
+	m := rtmp.NewStreamMessage(int(s.Sid))
+	m.MessageType = rtmp.MessageType(s.Type)
+	m.Timestamp = uint64(s.Ts)
+	m.Payload = s.payload()
+	return m
+}
+
+func sameMsg(m *rtmp.Message, s Step) error {
+	return rtmpx.Same(m, rtmpref.Msg{Type: s.Type, StreamID: s.Sid, Timestamp: s.Ts, Payload: s.payload()})
+}
+
+func runDuplex(c DCase) (inHeader bool, err error) {
+	// the inbound byte stream, written by a peer endpoint
+	var wire bytes.Buffer
+	peer := rtmp.NewProtocol(xport.RW{Reader: bytes.NewReader(nil), Writer: &wire})
+	var starts []int
+	for i, s := range c.In {
+		starts = append(starts, wire.Len())
+		if err := peer.WriteMessage(plainMsg(s)); err != nil {
+			return false, fmt.Errorf("peer: WriteMessage %d: %v", i, err)
+		}
+	}
+	in := wire.Bytes()
+	at := map[int][]Step{}
+	for _, o := range c.Out {
+		pos := min(starts[o.Msg]+o.K, len(in)-1)
+		at[pos] = append(at[pos], o.Step)
+		if o.K >= 1 && o.K <= 11 && starts[o.Msg]+o.K < len(in) {
+			inHeader = true
+		}
+	}
+
+	g := &gated{want: make(chan struct{}), data: make(chan byte)}
+	p := rtmp.NewProtocol(g)
+	type res struct {
+		i   int
+		m   *rtmp.Message
+		err error
+	}
+	done := make(chan res, len(c.In))
+	go func() {
+		for i := range c.In {
+			m, err := p.ReadMessage()
+			done <- res{i, m, err}
+			if err != nil {
+				return
+			}
+		}
+	}()
+	var order []Step
+	got := 0
+	collect := func(r res) error {
+		if r.err != nil {
+			return fmt.Errorf("ReadMessage %d: %v", r.i, r.err)
+		}
+		if err := sameMsg(r.m, c.In[r.i]); err != nil {
+			return fmt.Errorf("inbound message %d (the endpoint wrote %d messages meanwhile): %v", r.i, len(order), err)
+		}
+		got++
+		return nil
+	}
+	for i := 0; i < len(in); {
+		select {
+		case <-g.want:
+			// the reader waits for byte i: this endpoint writes now
+			for _, s := range at[i] {
+				if err := p.WriteMessage(plainMsg(s)); err != nil {
+					return inHeader, fmt.Errorf("WriteMessage while the reader waits for inbound byte %d: %v", i, err)
+				}
+				order = append(order, s)
+			}
+			g.data <- in[i]
+			i++
+		case r := <-done:
+			if err := collect(r); err != nil {
+				return inHeader, err
+			}
+		}
+	}
+	for got < len(c.In) {
+		select {
+		case r := <-done:
+			if err := collect(r); err != nil {
+				return inHeader, err
+			}
+		case <-g.want:
+			return inHeader, fmt.Errorf("the reader asks for more than the %d bytes of the %d inbound messages (%d read)", len(in), len(c.In), got)
+		}
+	}
+	// what this endpoint wrote, read by another endpoint
+	back := rtmp.NewProtocol(xport.RW{Reader: bytes.NewReader(g.out.Bytes()), Writer: io.Discard})
+	for i, s := range order {
+		m, err := back.ReadMessage()
+		if err != nil {
+			return inHeader, fmt.Errorf("outbound message %d (written while reading): peer's ReadMessage: %v", i, err)
+		}
+		if err := sameMsg(m, s); err != nil {
+			return inHeader, fmt.Errorf("outbound message %d (written while reading): %v", i, err)
+		}
+	}
+	return inHeader, nil
+}
+
+// TestDuplex: an endpoint writes while its own reader is in the middle of an inbound chunk header.
+func TestDuplex(t *testing.T) {
+	rec := ev.New(prop, "duplex", "one endpoint reads 1..4 inbound messages delivered byte by byte and writes 1..5 messages at chosen moments in between (the harness owns the schedule: the write happens while the reader waits for a given byte); both directions are compared with what was written; non-trivial = a write falls inside an inbound chunk header").Require("write-inside-inbound-header")
+	ev.Rapid(t, "duplex", 1500, 60000, func(t *rapid.T) {
+		c := genDCase(t)
+		var inHeader bool
+		err := ev.WithTimeout(60e9, func() error {
+			var e error
+			inHeader, e = runDuplex(c)
+			return e
+		})
+		var cl []string
+		if inHeader {
+			cl = append(cl, "write-inside-inbound-header")
+		}
+		rec.Case(inHeader, ev.Hash(c), cl, func() any { return c })
+		if err != nil {
+			p := ev.Fail(prop, "duplex", c, err)
+			t.Fatalf("%v (replay %s)", err, p)
+		}
+	})
+}
+
 func replayers() map[string]func(json.RawMessage) error {
 	f := func(raw json.RawMessage) error {
 		var c Case
@@ -657,7 +855,14 @@ func replayers() map[string]func(json.RawMessage) error {
 		}
 		return ev.Try(func() error { _, e := runCase(c); return e })
 	}
-	return map[string]func(json.RawMessage) error{"session": f, "boundaries": f, "side-by-side": f}
+	d := func(raw json.RawMessage) error {
+		var c DCase
+		if err := json.Unmarshal(raw, &c); err != nil {
+			return err
+		}
+		return ev.WithTimeout(60e9, func() error { _, e := runDuplex(c); return e })
+	}
+	return map[string]func(json.RawMessage) error{"session": f, "boundaries": f, "side-by-side": f, "largest-message": f, "duplex": d}
 }
 
 func TestRegress(t *testing.T) { ev.Regress(t, prop, replayers()) }
